@@ -5,6 +5,11 @@ V = os.path.dirname(os.path.dirname(os.path.abspath(__file__)))
 ALL = ['C%02d' % i for i in range(1, 21)]
 
 CLAIMED = {
+ 'C01': dict(
+   technique='Lean 4 proof: round trip of a command-level model of Path.d through the SVG reference interpreter (induction over the segment list with a state-correspondence invariant), composed with the C02 parser refinement theorem; serializer model tied by token-level correspondence through the real tokenizer',
+   text='Proof. d_parse_roundtrip: for EVERY non-empty segment list (any mix of Line/Quadratic/Cubic/Arc, several subpaths, open, closed by a line, closed by a curve, revisiting its start; arcs as Arc objects guarantee them: non-zero radii, distinct ends; closing Line not of zero length) and EVERY option set (useSandT, use_closed_attrib, rel), the parser model applied to the tokens of the Path.d model returns exactly the same segments - same kinds, order, flags and points, nothing dropped or added - and _closed iff Z was written. The absolute form uses no arithmetic law except commutativity of + (so it is a statement about IEEE doubles); the relative form uses exactly a + (b - a) = b. Built from run_dCmds (serializer vs reference interpreter) and C02.parse_refines_spec (parser vs reference interpreter). The model (M emission rule, S/T decision through is_smooth_from, relative lowering, Z) is compared token-by-token with the real Path.d for all 8 option sets on structured dyadic paths every run; a float sampler round-trips random paths incl. huge/tiny/exponent-format numbers, auto-enlarged arcs and mutated paths with the tolerances of the statement.',
+   note='Trusted: kernel + standard axioms; CPython repr/float/format; correspondence runner. Relative form in floats (rounding of emitted differences, the extra closing line of rounding-error length) is sampled, not proved. Arc re-normalisation is C04.',
+   ref='7 C01'),
  'C02': dict(
    technique='Lean 4 proof: refinement (simulation relation + induction over the command list) of a token-level model of Path._parse_path to a reference interpreter written from SVG 1.1 section 8.3; models tied by exhaustive/random token-level correspondence and an exhaustive tokenizer correspondence',
    text='Proof. parse_refines_spec: for EVERY grammatical program - an initial moveto followed by any number of commands over the 20 letters, any arguments, each letter present or omitted where SVG permits (implicit repetition, lineto after moveto) - the model of the parser loop (command / last_command / absolute state, M->L rewriting, CS/QT tests, reflection, closepath, H/V, zero-radius and zero-length arcs) returns exactly the segments and closed flag of the reference interpreter, whose state is (current point, subpath start, remembered cubic/quadratic control). Law-free except commutativity of +, so it is a statement about floats. The pre-repair parser is refuted by a kernel-checked witness (S after Z). The parser model is executed against parse_path on all programs of <=2 (quick) / <=3 (thorough) commands over the 20 letters, random programs to length 12 and a malformed stream (error kinds compared); the tokenizer model against Path._tokenize_path on every string of length <=4/5 over the 9 characters that matter. A sampler compares parse_path with an independent string-level reference interpreter across number classes and 7 spellings.',
